@@ -416,6 +416,14 @@ func c18builtinSeeds() ([]c18seed, error) {
 			nest = append(n2, t...)
 		}
 		seeds = append(seeds, c18seed{id: "x:deepnest", kind: c18kObj, data: nest, feats: []string{"deepnest"}})
+		// the same nesting continued to 32 KiB: every level copies the rest of the buffer, allocation grows with the
+		// square of the input (known finding; only the unmutated input is decoded)
+		for len(nest) < 32000 {
+			t := append(c18vi(1), nest...)
+			n2 := append([]byte{9}, c18vi(int64(len(t)))...)
+			nest = append(n2, t...)
+		}
+		seeds = append(seeds, c18seed{id: "x:deepnest-32k", kind: c18kObj, data: nest, feats: []string{"deepnest"}})
 	}
 	// gob fallback values whose containers hold a nil element (gob accepts a nil interface inside a
 	// slice or map): as a single object, as a source-file name, as a constant
